@@ -177,7 +177,8 @@ fn show_case(ops: &[Op]) -> Value {
 /// Replays `ops` on a fresh builder; compares each outcome with the registry.
 fn replay(ops: &[Op], check: bool) -> Result<(Scheme, Registry, Vec<Outcome>), Fail> {
     let mut reg = Registry::default();
-    let mut b = SchemeBuilder::new();
+    // both public ways of making a builder (the C API uses the second one)
+    let mut b = if ops.len() % 2 == 0 { SchemeBuilder::new() } else { SchemeBuilder::default() };
     let mut outs = Vec::new();
     for (i, op) in ops.iter().enumerate() {
         let want = reg.apply(*op);
